@@ -1,4 +1,4 @@
 # sourced by every script: offline Go environment
 export GOFLAGS=-mod=mod GOPROXY=off GOSUMDB=off GOTOOLCHAIN=local CGO_ENABLED=0
-export VERIF=/verif REPO=${REPO:-/repo}
+export VERIF=${VERIF:-$(cd "$(dirname "${BASH_SOURCE[0]}")/.." && pwd)} REPO=${REPO:-/repo}
 export GOCACHE=${GOCACHE:-/root/.cache/go-build}
